@@ -30,6 +30,7 @@ valexpr = operand (non-bool) | expr (bool)
 from __future__ import annotations
 
 import copy
+import os
 from typing import Any, Dict, List, Optional, Tuple
 
 from hypothesis import strategies as st
@@ -144,6 +145,10 @@ DEFAULT_CFG: Dict[str, Any] = {
 def cfg(**over) -> Dict[str, Any]:
     c = dict(DEFAULT_CFG)
     c.update(over)
+    if os.environ.get("VK_MULTI_DEF"):  # experiments only: force multi-definition options into every generator
+        c["p_multi_def"] = int(os.environ["VK_MULTI_DEF"])
+    if os.environ.get("VK_CHOICE_TWICE"):
+        c["p_choice_twice"] = int(os.environ["VK_CHOICE_TWICE"])
     if not c["float"]:
         c["type_weights"] = [(w, t) for w, t in c["type_weights"] if t != "float"]
     return c
@@ -155,6 +160,7 @@ def cfg(**over) -> Dict[str, Any]:
 
 _WORDS_A = ("alpha", "beta", "gamma", "delta", "x", "Z9", "hello world", "v1", "12", "0x10", "a b c")
 _WORDS_B = _WORDS_A + ('q"uote', "back\\slash", "hash # mark", "it's", "two  spaces", "an if inside", "on", "$dollar", " lead")
+_WORDS_U = _WORDS_B + ("gr\u00fc\u00dfe 25 \u00b0C", "\u4e2d\u6587")  # non-ASCII: byte length != character count
 
 
 def gen_literal(d: D, typ: str, c) -> List[Any]:
@@ -168,10 +174,10 @@ def gen_literal(d: D, typ: str, c) -> List[Any]:
         form = d.weighted([(6, "0x%x"), (2, "0x%X"), (1, "0X%x")])
         return ["lit", "hex", form % v]
     if typ == "float":
-        v = d.weighted([(6, "0.0"), (6, "1.0"), (8, "1.5"), (8, "2.5"), (6, "3.14"), (6, "10.0"), (4, "-1.5"), (4, "0.25"), (2, "1e3"), (2, "2.5E-2"), (2, "100.75")])
+        v = d.weighted([(6, "0.0"), (6, "1.0"), (8, "1.5"), (8, "2.5"), (6, "3.14"), (6, "10.0"), (4, "-1.5"), (4, "0.25"), (2, "1e3"), (2, "2.5E-2"), (2, "100.75"), (2, "1e-6"), (1, "2.5e+3")])
         return ["lit", "float", v]
     if typ == "string":
-        words = _WORDS_B if c.get("string_tier") == "B" else _WORDS_A
+        words = {"B": _WORDS_B, "U": _WORDS_U}.get(c.get("string_tier"), _WORDS_A)
         return ["lit", "string", d.pick(words)]
     raise ValueError(typ)
 
@@ -319,7 +325,7 @@ class _Builder:
                 self.n_menus += 1
                 m = {
                     "k": "menu",
-                    "title": f"Menu {self.n_menus}",
+                    "title": f"Menu {self.n_menus - 1 if self.n_menus > 1 and c.get('p_dup_menu_title') and d.chance(c['p_dup_menu_title']) else self.n_menus}",
                     "depends": [gen_expr(d, self.avail(), c)] if d.chance(c["p_menu_dep"]) else [],
                     "visible": gen_expr(d, self.avail(), c) if d.chance(c["p_menu_vis"]) else None,
                     "body": [],
@@ -484,9 +490,11 @@ class _Builder:
             return hi, lo
         return lo, hi
 
-    def add_reverse_edges(self, target: str, typ: str) -> None:
+    def add_reverse_edges(self, target: str, typ: str, boost: bool = False) -> None:
         """select / imply / set / set default are written on a lower-ranked bool *source* and point at `target`."""
         d, c = self.d, self.c
+        if boost:
+            c = dict(c, p_select=max(c["p_select"], 55), p_imply=max(c["p_imply"], 55), p_set=max(c["p_set"], 35), p_wset=max(c["p_wset"], 60))
         sources = [n for n in self.order if self.types[n] == "bool" and n != target]
         if not sources:
             return
@@ -503,7 +511,7 @@ class _Builder:
                 if d.chance(p):
                     s = self.conf[d.pick(sources)]
                     same = [n for n in self.order if self.types[n] == typ and n != target]
-                    if typ == "string" and same and d.chance(c["p_set_symval"]):
+                    if (typ == "string" or c.get("set_symval_numeric")) and same and d.chance(c["p_set_symval"]):
                         v = ["sym", d.pick(same)]
                     else:
                         v = gen_literal(d, typ, c)
@@ -529,11 +537,38 @@ class _Builder:
                 e["depends"].insert(0, ["sym", parent])
                 after = parent
                 body = self._body_of(parent) or body
+        bare = bool(c.get("p_bare")) and d.chance(c["p_bare"]) and (typ in ("bool", "string") or not c["numeric_fallback"])
+        if bare:
+            # a "derived" option: no prompt, no default, no range - its value comes from select / imply / set / set default
+            # only, and only its own `depends on` ties it to the rest of the tree
+            e["prompt"], e["defaults"], e["ranges"], e["menuconfig"], e["warning"] = None, [], [], False, None
+            if not e["depends"] and self.avail():
+                e["depends"].append(gen_expr(d, self.avail(), c, 1))
+        second = None
+        if not bare and c["p_multi_def"] and d.chance(c["p_multi_def"]):
+            # the same option defined at a second location (same type): a "defaults only" entry, a prompt-only entry or a
+            # full one, anywhere in the tree - before or after the first definition in file order
+            second = self.new_config(name, typ)
+            second["menuconfig"] = False
+            second["warning"] = None
+            shape = d.weighted([(4, "defaults-only"), (3, "prompt-only"), (3, "both")])
+            if shape == "defaults-only":
+                second["prompt"] = None
+            else:
+                second["prompt"] = second["prompt"] or self.prompt(f"Second prompt {name}", force=True)
+                if shape == "prompt-only":
+                    second["defaults"], second["ranges"] = [], []
+            if e["prompt"] is not None and second["prompt"] is not None and d.chance(50):
+                e["prompt"] = None  # the prompt lives at the second location only
+                e["menuconfig"] = False
         self.types[name] = typ
-        self.add_reverse_edges(name, typ)
+        self.add_reverse_edges(name, typ, boost=bare)
         self.order.append(name)
         self.conf[name] = e
         self.insert(body, e, after)
+        if second is not None:
+            body2, _d2 = self.pick_container()
+            self.insert(body2, second)
 
     def _body_of(self, name: str) -> Optional[list]:
         def rec(body):
@@ -580,6 +615,33 @@ class _Builder:
                 ch["defaults"].append({"val": d.pick(names)[0], "cond": cond})
         body, _ = self.pick_container()
         self.insert(body, ch)
+        if ch["name"] and c["p_choice_twice"] and d.chance(c["p_choice_twice"]):
+            # the same named choice continued at a second location: more members, optionally its own dependencies / defaults
+            av2 = self.avail()
+            ch2: Dict[str, Any] = {
+                "k": "choice",
+                "name": ch["name"],
+                "prompt": self.prompt(f"Choice {self.n_choices} again", force=True) if d.chance(30) else None,
+                "depends": [gen_expr(d, av, c)] if (av and d.chance(c["p_depends"])) else [],
+                "defaults": [],
+                "body": [],
+                "help": None,
+            }
+            more = []
+            for _ in range(d.int(1, 2)):
+                name = self.new_name()
+                more.append((name, self.new_config(name, "bool", in_choice=True)))
+            for name, m in more:
+                self.types[name] = "bool"
+                self.order.append(name)
+                self.conf[name] = m
+                self.choice_members[name] = str(self.n_choices)
+                ch2["body"].append(m)
+            if d.chance(35):
+                ch2["defaults"].append({"val": d.pick(names + more)[0], "cond": gen_expr(d, av, c, 1) if (av and d.chance(50)) else None})
+            del av2
+            body2, _ = self.pick_container()
+            self.insert(body2, ch2)
 
     def preseed(self, entries: List[dict]) -> None:
         """Fixed entries placed at the top of the root file; their options get the lowest ranks, so everything generated
@@ -622,6 +684,9 @@ class _Builder:
             if "body" in e and e["k"] != "choice":
                 self._prune_empty(e["body"])
                 if not e["body"]:
+                    if e["k"] == "menu" and self.c.get("p_keep_empty_menu") and self.d.chance(self.c["p_keep_empty_menu"]):
+                        i += 1  # an empty menu is legal; the menuconfig model has explicit guards for it
+                        continue
                     del body[i]
                     continue
             i += 1
@@ -723,7 +788,7 @@ def tree_and_assignments(draw, c: Optional[dict] = None, lo: int = 1, hi: int = 
 
 
 def gen_renames(d: D, tree: dict, lo: int = 1, hi: int = 5, dup_pct: int = 15, undefined_pct: int = 8, lower_pct: int = 8,
-                invert_nonbool_pct: int = 0) -> List[List[Any]]:
+                invert_nonbool_pct: int = 0, prefer: Optional[List[str]] = None, prefer_pct: int = 0) -> List[List[Any]]:
     """-> [[old, new, inverted] ...] in file order.  Several aliases per option, inverted and plain mixed in any
     order, duplicates of an old name (the last mapping wins), lower-case old names, mappings to undefined options."""
     names = tree["order"]
@@ -739,7 +804,7 @@ def gen_renames(d: D, tree: dict, lo: int = 1, hi: int = 5, dup_pct: int = 15, u
             new = "VK_NOT_DEFINED"
             inv = d.chance(30)
         else:
-            new = d.pick(names)
+            new = d.pick(prefer) if prefer and d.chance(prefer_pct) else d.pick(names)
             typ = tree["types"][new]
             inv = d.chance(40) if typ == "bool" else d.chance(invert_nonbool_pct)
         out.append([old, new, bool(inv)])
